@@ -11,6 +11,7 @@ import (
 	"sort"
 	"sync"
 	"testing"
+	"testing/iotest"
 	"testing/synctest"
 	"time"
 
@@ -208,6 +209,19 @@ func checkStream(c *ev.Case, ctx *lib.Ctx, msgs [][]byte, cuts []int, trunc int,
 	if onBoundary != (err2 == io.EOF) {
 		c.Fail(sig("eof-bufio"), stream, nil, "bufio reader: end on boundary=%v but error %v; %s", onBoundary, err2, desc())
 		return false
+	}
+	// (c) a plain reader that hands over its last bytes together with the end of the stream
+	//     (n > 0 with io.EOF in one Read, as the io.Reader contract allows)
+	if onBoundary && len(stream) > 0 {
+		got3, err3, pan := readAll(iotest.DataErrReader(memnet.NewFragReader(stream, cuts)), ctx, nil)
+		if pan != "" {
+			c.Fail(ev.Sig{"op": "panic", "site": panicSite(pan)}, stream, nil, "ReadMessage panicked: %s", pan)
+			return false
+		}
+		if d := cmpSeq(got3, msgs[:whole]); d != "" || err3 != io.EOF {
+			c.Fail(sig("sequence-data-with-eof"), stream, nil, "a reader that returns its final bytes together with io.EOF: %s (error after the last message: %v); %s", d, err3, desc())
+			return false
+		}
 	}
 	c.Event("streams_checked", 1)
 	c.Event("messages_delivered", whole*2)
